@@ -49,7 +49,7 @@ Example c05_history :
   let run := fold_left (λ st o, let r := step [] st.1 o in (r.1, (st.2 ++ [r.2])%list)) in
   let ops := [EConnect 0%nat "sub" "c-sub" "" "" 60 None 10; ESubscribe "sub" 1 [("t/#", 0)] 20;
               EConnect 0%nat "pub" "c-pub" "" "" 60 None 30; EFailAppend 0%nat 1%nat;
-              EPublish "pub" (Publish "t/a" "x" 1 false) false 7 40; EPublish "pub" (Publish "t/a" "y" 1 false) false 8 50] in
+              EPublish "pub" (Publish "t/a" "x" 1 false false) false 7 40; EPublish "pub" (Publish "t/a" "y" 1 false false) false 8 50] in
   nth 4%nat (run ops (cnew 1%nat, [])).2 [] = [AppendFailed 0%nat; Deadline "pub" 120000]
   ∧ nth 5%nat (run ops (cnew 1%nat, [])).2 [] = [Appended 0%nat "_default/t/a" "y" 1 false; Out "pub" (OPubAck 8); Deadline "pub" 120000;
                                           Out "sub" (OPublish "t/a" "y" 0 false false 0)].
